@@ -156,15 +156,22 @@ def run(ctx):
             mf2 = MassFunction(sigma_8=0.9, z=1.0, **kw)
             if not np.allclose(mf2.sigma / mf.sigma, 0.9 / 0.8 * mf2.growth_factor, rtol=1e-10):
                 viol("sigma-linearity", f"sigma(m) is not linear in sigma_8 and the growth factor (filter {filt})")
-            # the same configurations reached by updates of one instance whose sigma has been read at every step
+            # the same configurations reached by updates of one instance whose sigma (and normalised filter) has been read at every step,
+            # including a change of the mass grid in between
             mu = MassFunction(sigma_8=0.8, **kw)
-            base_u = np.array(mu.sigma)
-            for (s8u, zu) in ((0.9, 0.0), (0.9, 1.0), (0.6, 1.0), (0.8, 0.0), (1.1, 2.0)):
-                mu.update(sigma_8=s8u, z=zu)
-                want_u = s8u / 0.8 * float(np.atleast_1d(mu.growth.growth_factor(zu))[0]) * base_u
-                if not np.allclose(mu.sigma, want_u, rtol=1e-10, atol=0):
-                    viol("sigma-linearity/update-sequence", f"after update(sigma_8={s8u}, z={zu}) on an instance whose sigma had been read, sigma(m) differs from (sigma_8/0.8) D(z) sigma(m; 0.8, z=0) "
-                         f"by up to {float(np.max(np.abs(mu.sigma / want_u - 1))):.3g} (filter {filt})", {"filter_model": filt, "sigma_8": s8u, "z": zu})
+            kwu = dict(kw, sigma_8=0.8, z=0.0)
+            mu.sigma; mu.normalised_filter
+            for chg in ({"sigma_8": 0.9}, {"z": 1.0}, {"Mmin": 11.5}, {"sigma_8": 0.6}, {"sigma_8": 0.8, "z": 0.0}, {"sigma_8": 1.1, "z": 2.0, "Mmin": 11.0}):
+                mu.update(**chg)
+                kwu.update(chg)
+                ref_u = MassFunction(**dict(kwu, sigma_8=0.8, z=0.0)).sigma
+                want_u = kwu["sigma_8"] / 0.8 * float(np.atleast_1d(mu.growth.growth_factor(kwu["z"]))[0]) * ref_u
+                got_u = np.array(mu.sigma)
+                nf_u = mu.normalised_filter.sigma(mu.radii)
+                if not (np.allclose(got_u, want_u, rtol=1e-10, atol=0) and np.allclose(nf_u, got_u, rtol=1e-10)):
+                    viol("sigma-linearity/update-sequence", f"after update({chg}) on an instance whose sigma and normalised filter had been read, sigma(m) differs from (sigma_8/0.8) D(z) sigma(m; 0.8, z=0) "
+                         f"by up to {float(np.max(np.abs(got_u / want_u - 1))):.3g} (normalised_filter.sigma(radii) vs sigma: {float(np.max(np.abs(nf_u / got_u - 1))):.3g}; filter {filt})",
+                         {"filter_model": filt, "failing_step": str(chg), "sequence": "MassFunction(sigma_8=0.8); sigma; normalised_filter; update(sigma_8=0.9); update(z=1); update(Mmin=11.5); update(sigma_8=0.6); update(sigma_8=0.8,z=0); update(sigma_8=1.1,z=2,Mmin=11)"})
                     break
             # ... also where sigma is tiny (high redshift, cluster masses) or large (dwarf masses, high sigma_8)
             for (s8b, zb, lo, hi) in ((0.6, 25.0, 14.0, 16.0), (1.2, 0.0, 6.0, 8.0), (0.6, 40.0, 13.0, 15.5), (0.8, 12.0, 14.5, 16.0)):
